@@ -78,6 +78,12 @@ def configs(tier):
         for text in TEXTS[1:]:
             for ms in itertools.combinations_with_replacement(CALLS, 4):
                 cfg.append(("dfs-4t-1call", 2, text, [[c] for c in ms], "shuttle"))
+    # cloning the shared view while others index it: K = clone + line_count of the clone
+    for text in TEXTS[1:]:
+        for other in [["C"], ["L1"], ["N"], ["L0", "C"], ["K"]]:
+            cfg.append(("dfs-2t-clone", 3 if q else 5, text, [["K"], other], "shuttle"))
+            cfg.append(("2t-clone", 3 if q else None, text, [["K"], other], "loom"))
+        cfg.append(("dfs-3t-clone", 2, text, [["K"], ["C"], ["L1"]], "shuttle"))
     # a text long enough to cross any batching inside the indexing loop (70 lines): single calls that
     # index to the end, read the first / last / an absent line, in pairs and (thorough) triples
     long_text = "\\n".join(f"l{i}" for i in range(70))
@@ -322,7 +328,7 @@ def main():
             "samples": samples,
             "evaluations": len(results),
             "distinct_nontrivial": sum(1 for i, c in enumerate(cfgs) if i in results and results[i][0] > 1),
-            "rule": "Two controlled-scheduler engines run the real SourceView, whose Mutex/AtomicUsize are switched by cfg. (1) shuttle runtime with the harness's own scheduler: depth-first enumeration of EVERY schedule with at most the stated number of preemptions (no partial-order reduction; every lock, unlock-to-lock hand-over and atomic operation is a scheduling point; sequentially consistent memory); single-call pairs over {get_line, line_count} without any bound. (2) loom: DPOR with the C11 memory model for the instrumented operations (2 threads: unbounded except the heaviest pairs; 3-4 threads: preemption-bounded). Engine (1) exists because loom's reduction was found to skip a real interleaving (DESIGN 9.1, fix 8b). A configuration = text (empty, 1, 2 and 3 lines; plus one text of 70 lines for single calls, so that anything the indexing loop does per batch of lines is crossed) x per-thread call programs over {get_line(0), get_line(1), get_line(9), line_count(), lines().collect()} (70-line text: get_line(0), get_line(69), get_line(99), line_count()); every call's answer is compared with the single-threaded answer, panics and deadlocks are violations, and the view is queried again after all threads joined. states = distinct call-completion orders observed (summed over configurations); transitions = calls executed on the real SourceView; traces = schedules executed (all on the implementation); non-trivial configuration = more than one schedule.",
+            "rule": "Two controlled-scheduler engines run the real SourceView, whose Mutex/AtomicUsize are switched by cfg. (1) shuttle runtime with the harness's own scheduler: depth-first enumeration of EVERY schedule with at most the stated number of preemptions (no partial-order reduction; every lock, unlock-to-lock hand-over and atomic operation is a scheduling point; sequentially consistent memory); single-call pairs over {get_line, line_count} without any bound. (2) loom: DPOR with the C11 memory model for the instrumented operations (2 threads: unbounded except the heaviest pairs; 3-4 threads: preemption-bounded). Engine (1) exists because loom's reduction was found to skip a real interleaving (DESIGN 9.1, fix 8b). A configuration = text (empty, 1, 2 and 3 lines; plus one text of 70 lines for single calls, so that anything the indexing loop does per batch of lines is crossed) x per-thread call programs over {get_line(0), get_line(1), get_line(9), line_count(), lines().collect()}, plus clone-and-count next to an indexing thread (70-line text: get_line(0), get_line(69), get_line(99), line_count()); every call's answer is compared with the single-threaded answer, panics and deadlocks are violations, and the view is queried again after all threads joined. states = distinct call-completion orders observed (summed over configurations); transitions = calls executed on the real SourceView; traces = schedules executed (all on the implementation); non-trivial configuration = more than one schedule.",
             "exhaustive": complete and not mach,
             "families": list(fams.values()),
             "configurations": len(cfgs),
